@@ -9,6 +9,10 @@ import (
 	"fmt"
 	"strings"
 
+	"github.com/gopacket/gopacket"
+
+	"github.com/scionproto/scion/pkg/slayers"
+
 	"github.com/scionproto/scion/pkg/slayers/path/epic"
 
 	"verifharness/vlib"
@@ -218,6 +222,480 @@ func (c *ctx) mutate(b []byte, hdrLen int) ([]byte, string) {
 	}
 }
 
+// ---- extension headers and L4 headers -----------------------------------------------------------
+
+type optIn struct {
+	typ  uint8
+	data []byte
+	ax   uint8
+	ay   uint8
+}
+
+func (c *ctx) genOpts() []optIn {
+	r := c.r
+	n := r.Intn(5)
+	os := make([]optIn, 0, n)
+	for i := 0; i < n; i++ {
+		o := optIn{}
+		switch r.Intn(6) {
+		case 0:
+			o.typ = 0 // an explicit Pad1
+		case 1:
+			o.typ = 1 // an explicit PadN
+		case 2:
+			o.typ = 2 // authenticator option number
+		default:
+			o.typ = uint8(r.U64())
+		}
+		if o.typ != 0 {
+			switch r.Intn(8) {
+			case 0:
+				o.data = nil
+			case 1:
+				o.data = r.Bytes(100 + r.Intn(156)) // up to the 255-byte OptDataLen limit
+			default:
+				o.data = r.Bytes(r.Intn(30))
+			}
+		}
+		if r.Chance(60) {
+			x := []uint8{2, 4, 8, 4, 3, 16, 255}[r.Intn(7)]
+			o.ax, o.ay = x, uint8(r.Intn(int(x)))
+		}
+		os = append(os, o)
+	}
+	return os
+}
+
+func optsInStr(os []optIn) string {
+	if len(os) == 0 {
+		return "-"
+	}
+	var w []string
+	for _, o := range os {
+		w = append(w, fmt.Sprintf("%d:%s:%d:%d", o.typ, vlib.Hex(o.data), o.ax, o.ay))
+	}
+	return strings.Join(w, ",")
+}
+
+type extLayer interface {
+	DecodeFromBytes([]byte, gopacket.DecodeFeedback) error
+	SerializeTo(gopacket.SerializeBuffer, gopacket.SerializeOptions) error
+}
+
+func mkExt(kind string, nh uint8, el uint8, os []optIn) extLayer {
+	if kind == "hbh" {
+		x := &slayers.HopByHopExtn{}
+		x.NextHdr, x.ExtLen = slayers.L4ProtocolType(nh), el
+		for _, o := range os {
+			x.Options = append(x.Options, &slayers.HopByHopOption{OptType: slayers.OptionType(o.typ),
+				OptData: o.data, OptAlign: [2]uint8{o.ax, o.ay}})
+		}
+		return x
+	}
+	x := &slayers.EndToEndExtn{}
+	x.NextHdr, x.ExtLen = slayers.L4ProtocolType(nh), el
+	for _, o := range os {
+		x.Options = append(x.Options, &slayers.EndToEndOption{OptType: slayers.OptionType(o.typ),
+			OptData: o.data, OptAlign: [2]uint8{o.ax, o.ay}})
+	}
+	return x
+}
+
+type optOut struct {
+	typ, dlen uint8
+	data      []byte
+}
+
+// extDump decodes with the real layer and renders the canonical dump.
+func extDecode(kind string, data []byte) (ans string, x extLayer, nh uint8, opts []optOut, payload []byte) {
+	cp := append([]byte(nil), data...)
+	fb := &wiregen.Feedback{}
+	var err error
+	res, ok := vlib.Safe(func() string {
+		if kind == "hbh" {
+			h := &slayers.HopByHopExtn{}
+			err = h.DecodeFromBytes(cp, fb)
+			x = h
+			if err == nil {
+				nh, payload = uint8(h.NextHdr), h.Payload
+				for _, o := range h.Options {
+					opts = append(opts, optOut{uint8(o.OptType), o.OptDataLen, o.OptData})
+				}
+				return fmt.Sprintf("ok %d %d", uint8(h.NextHdr), h.ExtLen)
+			}
+		} else {
+			h := &slayers.EndToEndExtn{}
+			err = h.DecodeFromBytes(cp, fb)
+			x = h
+			if err == nil {
+				nh, payload = uint8(h.NextHdr), h.Payload
+				for _, o := range h.Options {
+					opts = append(opts, optOut{uint8(o.OptType), o.OptDataLen, o.OptData})
+				}
+				return fmt.Sprintf("ok %d %d", uint8(h.NextHdr), h.ExtLen)
+			}
+		}
+		return ""
+	})
+	if !ok {
+		return res, nil, 0, nil, nil
+	}
+	if err != nil {
+		return "err " + wiregen.B2s(fb.Trunc), nil, 0, nil, nil
+	}
+	var w []string
+	for _, o := range opts {
+		w = append(w, fmt.Sprintf("%d:%d:%s", o.typ, o.dlen, vlib.Hex(o.data)))
+	}
+	os := "-"
+	if len(w) > 0 {
+		os = strings.Join(w, ",")
+	}
+	return fmt.Sprintf("%s %s pld=%d", res, os, len(payload)), x, nh, opts, payload
+}
+
+func extSerialize(x extLayer, payload []byte, fix bool) (string, []byte) {
+	var out []byte
+	res, ok := vlib.Safe(func() string {
+		buf := gopacket.NewSerializeBuffer()
+		if len(payload) > 0 {
+			b, _ := buf.PrependBytes(len(payload))
+			copy(b, payload)
+		}
+		if err := x.SerializeTo(buf, gopacket.SerializeOptions{FixLengths: fix}); err != nil {
+			return "ser-err"
+		}
+		out = append([]byte(nil), buf.Bytes()...)
+		return vlib.Hex(out)
+	})
+	if !ok {
+		return res, nil
+	}
+	return res, out
+}
+
+// content drops padding options and keeps (type, data): what an option list means.
+func contentIn(os []optIn) string {
+	var w []string
+	for _, o := range os {
+		if o.typ > 1 {
+			w = append(w, fmt.Sprintf("%d:%s", o.typ, vlib.Hex(o.data)))
+		}
+	}
+	return strings.Join(w, ",")
+}
+
+func contentOut(os []optOut) string {
+	var w []string
+	for _, o := range os {
+		if o.typ > 1 {
+			w = append(w, fmt.Sprintf("%d:%s", o.typ, vlib.Hex(o.data)))
+		}
+	}
+	return strings.Join(w, ",")
+}
+
+// checkExtBytes: one byte string through the real extension decoder and back.
+func (c *ctx) checkExtBytes(kind string, x []byte, tag string) {
+	e := c.e
+	ans, layer, _, _, payload := extDecode(kind, x)
+	t := kind + "/" + tag
+	acc := strings.HasPrefix(ans, "ok ")
+	if !acc {
+		t += "/" + strings.ReplaceAll(ans, " ", "")
+		if strings.HasPrefix(ans, "PANIC") {
+			t = kind + "/" + tag + "/PANIC"
+		}
+	}
+	e.Op(fmt.Sprintf("ext %s %s", kind, vlib.Hex(x)), ans, t)
+	rep := map[string]any{"layer": kind, "bytes": vlib.Hex(x), "kind": tag}
+	if strings.HasPrefix(ans, "PANIC") {
+		e.Violate("C18/ext-decoder-panic", "extension header decoder panicked: "+ans, rep)
+		return
+	}
+	if !acc {
+		return
+	}
+	if len(x) >= 2 && (int(x[1])+1)*4 > len(x) {
+		e.Violate("C18/overlong-extlen-accepted", "decoder accepted an ExtLen that exceeds the data", rep)
+	}
+	rt, _ := extSerialize(layer, payload, false)
+	e.Op(fmt.Sprintf("xrt %s %s", kind, vlib.Hex(x)), rt, t+"/rt")
+	if rt != vlib.Hex(x) {
+		rep["reserialized"] = rt
+		e.Violate("C18/ext-reserialize-differs", "re-serializing an accepted extension header does not reproduce it", rep)
+	}
+}
+
+func (c *ctx) extCases(n int) {
+	e, r := c.e, c.r
+	for i := 0; i < n; i++ {
+		kind := []string{"hbh", "e2e"}[i%2]
+		os := c.genOpts()
+		nh := nextHdrsExt[r.Intn(len(nextHdrsExt))]
+		payload := r.Bytes(r.Intn(12))
+		x := mkExt(kind, nh, uint8(r.U64()), os)
+		ans, bytesOut := extSerialize(x, payload, true)
+		e.Op(fmt.Sprintf("sext %s 1 %d 0 %s", kind, nh, optsInStr(os)), func() string {
+			if bytesOut == nil {
+				return ans
+			}
+			return vlib.Hex(bytesOut[:len(bytesOut)-len(payload)])
+		}(), "sext/"+kind)
+		if bytesOut == nil {
+			continue // NextHdr the layer refuses (HBH after HBH, ...): serializer error on both sides
+		}
+		rep := map[string]any{"layer": kind, "nextHdr": nh, "options": optsInStr(os), "bytes": vlib.Hex(bytesOut)}
+		// value -> bytes -> value: same NextHdr, same options up to padding; length multiple of 4
+		dec, _, dnh, dopts, dpl := extDecode(kind, bytesOut)
+		hdrLen := len(bytesOut) - len(payload)
+		if !strings.HasPrefix(dec, "ok ") || dnh != nh || contentOut(dopts) != contentIn(os) ||
+			!bytes.Equal(dpl, payload) || hdrLen%4 != 0 {
+			rep["decoded"] = dec
+			e.Violate("C18/ext-value-roundtrip", "decode(serialize(extension header)) differs from the value", rep)
+		}
+		// alignment: every option with a request x*n+y starts at such an offset
+		c.checkExtBytes(kind, bytesOut, "valid")
+		for k := 0; k < 8; k++ {
+			y := append([]byte(nil), bytesOut...)
+			mt := ""
+			switch r.Intn(7) {
+			case 0:
+				y[r.Intn(hdrLen)] ^= 1 << uint(r.Intn(8))
+				mt = "bitflip"
+			case 1:
+				y[1] = byte(int(y[1]) + []int{1, 2, 3, 50, -1, 200}[r.Intn(6)])
+				mt = "extlen"
+			case 2:
+				// an OptDataLen that runs past the header
+				if hdrLen > 3 {
+					y[3] = byte(hdrLen + r.Intn(200))
+				}
+				mt = "optdatalen"
+			case 3:
+				y = y[:r.Intn(len(y)+1)]
+				mt = "truncate"
+			case 4:
+				y[0] = []byte{200, 201, 17, 202}[r.Intn(4)]
+				mt = "nexthdr"
+			case 5:
+				copy(y[2+r.Intn(hdrLen-1):], r.Bytes(r.Intn(6)))
+				mt = "scribble"
+			default:
+				y = append(y, r.Bytes(r.Intn(9))...)
+				mt = "extend"
+			}
+			c.checkExtBytes(kind, y, mt)
+		}
+		if i < n/20 {
+			for k := 0; k <= len(bytesOut); k++ {
+				c.checkExtBytes(kind, bytesOut[:k], "trunc-all")
+			}
+		}
+	}
+	for i := 0; i < n; i++ {
+		c.checkExtBytes([]string{"hbh", "e2e"}[i%2], r.Bytes(r.Intn(40)), "random")
+	}
+}
+
+var nextHdrsExt = []uint8{17, 202, 201, 200, 6, 0, 203}
+
+func (c *ctx) l4Cases(n int) {
+	e, r := c.e, c.r
+	for i := 0; i < n; i++ {
+		// UDP
+		u := &slayers.UDP{SrcPort: uint16(r.U64()), DstPort: uint16(r.U64()), Checksum: uint16(r.U64())}
+		pl := r.Bytes(r.Intn(20))
+		buf := gopacket.NewSerializeBuffer()
+		_ = gopacket.SerializeLayers(buf, gopacket.SerializeOptions{FixLengths: true}, u, gopacket.Payload(pl))
+		x := append([]byte(nil), buf.Bytes()...)
+		switch r.Intn(6) {
+		case 0:
+			x = x[:r.Intn(len(x)+1)]
+		case 1:
+			binary.BigEndian.PutUint16(x[4:], uint16(r.Intn(12)))
+		case 2:
+			binary.BigEndian.PutUint16(x[4:], uint16(r.U64()))
+		}
+		fb := &wiregen.Feedback{}
+		d := &slayers.UDP{}
+		ans, _ := vlib.Safe(func() string {
+			if err := d.DecodeFromBytes(append([]byte(nil), x...), fb); err != nil {
+				return "err " + wiregen.B2s(fb.Trunc)
+			}
+			return fmt.Sprintf("ok %d %d %d %d pld=%d trunc=%s", d.SrcPort, d.DstPort, d.Length, d.Checksum,
+				len(d.Payload), wiregen.B2s(fb.Trunc))
+		})
+		e.Op("udp "+vlib.Hex(x), ans, "udp/"+strings.SplitN(ans, " ", 2)[0])
+		if strings.HasPrefix(ans, "PANIC") {
+			e.Violate("C18/udp-decoder-panic", ans, map[string]any{"bytes": vlib.Hex(x)})
+		}
+		if strings.HasPrefix(ans, "ok") {
+			// bytes -> value -> bytes on the header
+			b2 := gopacket.NewSerializeBuffer()
+			_ = d.SerializeTo(b2, gopacket.SerializeOptions{})
+			if !bytes.Equal(b2.Bytes(), x[:8]) {
+				e.Violate("C18/udp-reserialize-differs", "UDP header does not re-serialize to itself",
+					map[string]any{"bytes": vlib.Hex(x)})
+			}
+		}
+		// SCMP
+		y := r.Bytes(r.Intn(16))
+		s := &slayers.SCMP{}
+		fb2 := &wiregen.Feedback{}
+		ans2, _ := vlib.Safe(func() string {
+			if err := s.DecodeFromBytes(append([]byte(nil), y...), fb2); err != nil {
+				return "err " + wiregen.B2s(fb2.Trunc)
+			}
+			return fmt.Sprintf("ok %d %d %d pld=%d", s.TypeCode.Type(), s.TypeCode.Code(), s.Checksum, len(s.Payload))
+		})
+		e.Op("scmp "+vlib.Hex(y), ans2, "scmp/"+strings.SplitN(ans2, " ", 2)[0])
+		if strings.HasPrefix(ans2, "ok") {
+			b2 := gopacket.NewSerializeBuffer()
+			pb, _ := b2.PrependBytes(len(s.Payload))
+			copy(pb, s.Payload)
+			_ = s.SerializeTo(b2, gopacket.SerializeOptions{})
+			if !bytes.Equal(b2.Bytes(), y) {
+				e.Violate("C18/scmp-reserialize-differs", "SCMP header does not re-serialize to itself",
+					map[string]any{"bytes": vlib.Hex(y)})
+			}
+		}
+	}
+}
+
+// ---- SCMP message layers ------------------------------------------------------------------------
+
+type msgLayer interface {
+	DecodeFromBytes([]byte, gopacket.DecodeFeedback) error
+	SerializeTo(gopacket.SerializeBuffer, gopacket.SerializeOptions) error
+	LayerPayload() []byte
+}
+
+// msgDecode decodes the message layer the real SCMP.NextLayerType selects for type t.
+func msgDecode(t uint8, data []byte) (ans string, l msgLayer) {
+	scmp := &slayers.SCMP{TypeCode: slayers.CreateSCMPTypeCode(slayers.SCMPType(t), 0)}
+	var vals func() []uint64
+	switch scmp.NextLayerType() {
+	case slayers.LayerTypeSCMPDestinationUnreachable:
+		m := &slayers.SCMPDestinationUnreachable{}
+		l, vals = m, func() []uint64 { return nil }
+	case slayers.LayerTypeSCMPPacketTooBig:
+		m := &slayers.SCMPPacketTooBig{}
+		l, vals = m, func() []uint64 { return []uint64{uint64(m.MTU)} }
+	case slayers.LayerTypeSCMPParameterProblem:
+		m := &slayers.SCMPParameterProblem{}
+		l, vals = m, func() []uint64 { return []uint64{uint64(m.Pointer)} }
+	case slayers.LayerTypeSCMPExternalInterfaceDown:
+		m := &slayers.SCMPExternalInterfaceDown{}
+		l, vals = m, func() []uint64 { return []uint64{uint64(m.IA), m.IfID} }
+	case slayers.LayerTypeSCMPInternalConnectivityDown:
+		m := &slayers.SCMPInternalConnectivityDown{}
+		l, vals = m, func() []uint64 { return []uint64{uint64(m.IA), m.Ingress, m.Egress} }
+	case slayers.LayerTypeSCMPEcho:
+		m := &slayers.SCMPEcho{}
+		l, vals = m, func() []uint64 { return []uint64{uint64(m.Identifier), uint64(m.SeqNumber)} }
+	case slayers.LayerTypeSCMPTraceroute:
+		m := &slayers.SCMPTraceroute{}
+		l, vals = m, func() []uint64 {
+			return []uint64{uint64(m.Identifier), uint64(m.Sequence), uint64(m.IA), m.Interface}
+		}
+	default:
+		return "payload", nil
+	}
+	fb := &wiregen.Feedback{}
+	res, ok := vlib.Safe(func() string {
+		if err := l.DecodeFromBytes(append([]byte(nil), data...), fb); err != nil {
+			return "err " + wiregen.B2s(fb.Trunc)
+		}
+		var w []string
+		for _, v := range vals() {
+			w = append(w, fmt.Sprintf("%d", v))
+		}
+		vs := "-"
+		if len(w) > 0 {
+			vs = strings.Join(w, ",")
+		}
+		return fmt.Sprintf("ok %s pld=%d", vs, len(l.LayerPayload()))
+	})
+	if !ok || !strings.HasPrefix(res, "ok") {
+		return res, nil
+	}
+	return res, l
+}
+
+var msgLens = map[uint8]int{1: 4, 2: 4, 4: 4, 5: 16, 6: 24, 128: 4, 129: 4, 130: 20, 131: 20}
+
+// msgReserved zeroes the reserved fields of a message (scmp_msg.go layouts / SCMP spec).
+func msgReserved(t uint8, x []byte) []byte {
+	m := append([]byte(nil), x...)
+	switch t {
+	case 1:
+		copy(m[:4], []byte{0, 0, 0, 0})
+	case 2, 4:
+		m[0], m[1] = 0, 0
+	}
+	return m
+}
+
+func (c *ctx) msgCases(n int) {
+	e, r := c.e, c.r
+	types := []uint8{1, 2, 4, 5, 6, 128, 129, 130, 131, 0, 3, 7, 100, 132, 200, 255}
+	for i := 0; i < n; i++ {
+		t := types[i%len(types)]
+		if r.Chance(5) {
+			t = uint8(r.U64())
+		}
+		ln := msgLens[t] + r.Intn(12)
+		switch r.Intn(5) {
+		case 0:
+			ln = r.Intn(msgLens[t] + 1) // around and below the minimum length
+		case 1:
+			ln = msgLens[t]
+		}
+		x := r.Bytes(ln)
+		ans, l := msgDecode(t, x)
+		tag := fmt.Sprintf("smsg/%d/%s", t, strings.SplitN(ans, " ", 2)[0])
+		if _, known := msgLens[t]; !known {
+			tag = "smsg/other/" + strings.SplitN(ans, " ", 2)[0]
+		}
+		e.Op(fmt.Sprintf("smsg %d %s", t, vlib.Hex(x)), ans, tag)
+		rep := map[string]any{"scmp_type": t, "bytes": vlib.Hex(x)}
+		if strings.HasPrefix(ans, "PANIC") {
+			e.Violate("C18/scmp-msg-decoder-panic", ans, rep)
+			continue
+		}
+		if l == nil {
+			if want, known := msgLens[t]; known && len(x) >= want && ans != "payload" {
+				e.Violate("C18/scmp-msg-rejected", "a complete SCMP message was rejected", rep)
+			}
+			continue
+		}
+		if len(x) < msgLens[t] {
+			e.Violate("C18/scmp-msg-short-accepted", "an SCMP message shorter than its fixed fields was accepted", rep)
+		}
+		// bytes -> value -> bytes
+		buf := gopacket.NewSerializeBuffer()
+		pl := l.LayerPayload()
+		if len(pl) > 0 {
+			b, _ := buf.PrependBytes(len(pl))
+			copy(b, pl)
+		}
+		_ = l.SerializeTo(buf, gopacket.SerializeOptions{})
+		got := vlib.Hex(buf.Bytes())
+		e.Op(fmt.Sprintf("smrt %d %s", t, vlib.Hex(x)), got, tag+"/rt")
+		if got != vlib.Hex(msgReserved(t, x)) {
+			rep["reserialized"] = got
+			e.Violate("C18/scmp-msg-reserialize-differs", "SCMP message does not re-serialize to itself (modulo reserved fields)", rep)
+		}
+		// value -> bytes -> value
+		ans2, _ := msgDecode(t, buf.Bytes())
+		if ans2 != ans {
+			rep["decoded_again"] = ans2
+			e.Violate("C18/scmp-msg-value-roundtrip", "decode(serialize(message)) differs", rep)
+		}
+	}
+}
+
 func main() {
 	e := vlib.Init()
 	r := vlib.NewRand(uint64(e.Seed))
@@ -299,6 +777,8 @@ func main() {
 		}
 		c.checkBytes(x, "random")
 	}
-	_ = bytes.Equal
+	c.extCases(e.N(600, 12000))
+	c.l4Cases(e.N(600, 12000))
+	c.msgCases(e.N(1600, 32000))
 	e.Finish()
 }
